@@ -38,6 +38,11 @@ FileMuts(g) ==
   \cup {[f |-> "idxN", b |-> 0, v |-> v] : v \in {g.idxN + 1} \cup (IF g.idxN > 0 THEN {g.idxN - 1} ELSE {})}
   \* a self-consistent SHORTER index: count k, the first k records, padding / CRC / backward size all right for it
   \cup {[f |-> "idxFewer", b |-> 0, v |-> k] : k \in 0..(g.idxN - 1)}
+  \* per-block records wrong while count and column totals stay right: the first two records swapped (1), four
+  \* unpadded bytes moved from the second to the first (2), one uncompressed byte moved (3)
+  \cup (IF g.idxN >= 2 /\ g.idxRecs[1] # g.idxRecs[2] THEN {[f |-> "idxPerm", b |-> 0, v |-> 1]} ELSE {})
+  \cup (IF g.idxN >= 2 /\ g.idxRecs[2][1] > 4 THEN {[f |-> "idxPerm", b |-> 0, v |-> 2]} ELSE {})
+  \cup (IF g.idxN >= 2 /\ g.idxRecs[2][2] > 0 THEN {[f |-> "idxPerm", b |-> 0, v |-> 3]} ELSE {})
   \cup {[f |-> "backward", b |-> 0, v |-> v] : v \in {g.backward + 1, g.backward + 2 ^ (BwBits - 2)} \cup (IF g.backward > 0 THEN {g.backward - 1} ELSE {})}
   \cup {[f |-> "trailing", b |-> 0, v |-> v] : v \in {1, 4}}
 BlockMuts(g, i) ==
@@ -77,6 +82,11 @@ Mutate(g, m) ==
     [] m.f = "idxN"    -> [g EXCEPT !.idxN = m.v]
     [] m.f = "idxFewer" -> [g EXCEPT !.idxN = m.v, !.idxRecs = SubSeq(@, 1, m.v),
                                       !.backward = (IndexSize(m.v, SubSeq(g.idxRecs, 1, m.v)) \div 4) - 1]
+    [] m.f = "idxPerm"  -> LET r == g.idxRecs
+                               nr == CASE m.v = 1 -> [r EXCEPT ![1] = r[2], ![2] = r[1]]
+                                       [] m.v = 2 -> [r EXCEPT ![1] = <<r[1][1] + 4, r[1][2]>>, ![2] = <<r[2][1] - 4, r[2][2]>>]
+                                       [] m.v = 3 -> [r EXCEPT ![1] = <<r[1][1], r[1][2] + 1>>, ![2] = <<r[2][1], r[2][2] - 1>>]
+                           IN [g EXCEPT !.idxRecs = nr, !.backward = (IndexSize(g.idxN, nr) \div 4) - 1]
     [] m.f = "backward" -> [g EXCEPT !.backward = m.v]
     [] m.f = "trailing" -> [g EXCEPT !.trailing = m.v]
     [] m.f = "reserved" -> [g EXCEPT !.blocks[m.b].reserved = TRUE]
